@@ -366,7 +366,8 @@ def check_self_balance(rec, fd, s, prop="C03"):
     if st.size == 0 or np.any(~np.isfinite(st)) or np.any(~np.isfinite(inf)) or np.any(~np.isfinite(out)):
         return
     scale = np.max(np.abs(st)) + np.max(np.abs(inf)) * np.max(dt) + np.max(np.abs(out)) * np.max(dt)
-    if scale > 1e6:
+    if scale > (1e6 if len(items) > 30 else 3e13):
+        # (rounding grows with magnitude and with the number of steps: at 1e13 and up to 30 steps it stays two orders below one tonne)
         rec.skip(M03B, "values too large for the absolute 1-tonne threshold")
         return
     cls = type(s).__name__
